@@ -495,7 +495,7 @@ func newCcfg(row *cfgRow, r *rand.Rand) *ccfg {
 	}
 	n := len(row.List)
 	ncls := strconv.Itoa(n)
-	if n > 4 {
+	if n > 5 {
 		ncls = "big"
 	}
 	order := "sorted"
@@ -510,6 +510,37 @@ func newCcfg(row *cfgRow, r *rand.Rand) *ccfg {
 		c.feats = append(c.feats, "rpcspell=expanded")
 	}
 	return c
+}
+
+// proxyFeats describes the position of proxy ps in its configuration: the sequence "own address,
+// then the list entries other than itself" and where the own address lies in address order.
+func proxyFeats(row *cfgRow, ps *proxySpec) []string {
+	seq := []int{ps.Addr}
+	for _, a := range row.List {
+		if a != ps.Addr {
+			seq = append(seq, a)
+		}
+	}
+	order := "sorted"
+	pos := "first"
+	for i := 1; i < len(seq); i++ {
+		if seq[i] < seq[i-1] {
+			order = "unsorted"
+		}
+		if seq[i] < ps.Addr {
+			pos = "notfirst"
+		}
+	}
+	m := len(seq)
+	nodes := strconv.Itoa(m)
+	if m > 6 {
+		nodes = "big"
+	}
+	multi := "0"
+	if m > 1 {
+		multi = "1"
+	}
+	return []string{"nodeorder=" + order, "selfpos=" + pos, "nodes=" + nodes, "multi=" + multi}
 }
 
 func (c *ccfg) describe() map[string]interface{} {
@@ -631,6 +662,7 @@ type runner struct {
 	tokOf    map[netip.Addr]string // tokens text from this proxy's star views
 	starOK   bool
 	ringView map[string]string // addr -> "dc|tokens|hid"
+	feats    []string          // configuration features + features of this proxy's position
 }
 
 func (r *runner) next() int16 {
@@ -795,7 +827,7 @@ func (r *runner) table(table string) []cnode {
 
 // checkValues compares decoded rows with the specification's rows.
 func (r *runner) checkValues(s *selRow, mode string, o *obsRows) {
-	csig := sig(r.cc.feats, "table="+s.Table, "mode="+mode)
+	csig := sig(r.feats, "table="+s.Table, "mode="+mode)
 	nodes := r.table(s.Table)
 	// map output position -> (src column name, source)
 	type pos struct{ col, source, fn string }
@@ -851,7 +883,7 @@ func (r *runner) checkValues(s *selRow, mode string, o *obsRows) {
 }
 
 func (r *runner) compareRows(s *selRow, mode string, o *obsRows, nodes []cnode, at func(j int) (string, string), ncols int) {
-	csig := sig(r.cc.feats, "table="+s.Table, "mode="+mode)
+	csig := sig(r.feats, "table="+s.Table, "mode="+mode)
 	// identifying column?
 	idcol := -1
 	for j := 0; j < ncols; j++ {
@@ -1111,9 +1143,10 @@ func (r *runner) starView(local, peers *selRow) {
 	}
 	// computed tokens: one token per node, minimum token first, strictly increasing with the address
 	if r.cc.row.Tokm == "none" {
-		csig := sig(r.cc.feats)
+		csig := sig(r.feats)
 		all := append([]cnode{r.local}, r.peers...)
-		sort.Slice(all, func(i, j int) bool { return less16(all[i].addr, all[j].addr) })
+		// the specification's rank = position in address order (the concretisation preserves the order)
+		sort.Slice(all, func(i, j int) bool { return all[i].rank < all[j].rank })
 		good := true
 		why := ""
 		var seq []string
@@ -1121,9 +1154,6 @@ func (r *runner) starView(local, peers *selRow) {
 		min := big.NewInt(-1 << 63)
 		max := new(big.Int).SetUint64(1<<63 - 1)
 		for i, n := range all {
-			if n.rank != i+1 {
-				panic("rank mismatch between specification and concretisation")
-			}
 			t, have := r.tokOf[n.addr]
 			seq = append(seq, n.addr.String()+"="+t)
 			if !have {
@@ -1234,6 +1264,7 @@ func runCfg(res *results, cluster *fakecql.Cluster, j *job, starLocal, starPeers
 			for _, n := range ps.Peers {
 				r.peers = append(r.peers, cc.node(n, listen))
 			}
+			r.feats = append(append([]string{}, cc.feats...), proxyFeats(j.row, ps)...)
 			r.starView(starLocal, starPeers)
 			if r.starOK {
 				views[r.proxyName()] = r.ringView
@@ -1250,12 +1281,10 @@ func runCfg(res *results, cluster *fakecql.Cluster, j *job, starLocal, starPeers
 		}()
 	}
 	res.count("configurations", 1)
-	if j.row.Agree && len(j.row.Proxies) > 1 {
-		ok := len(order) == len(j.row.Proxies)
+	// (a proxy without ring view has already been reported by the check that failed for it)
+	if j.row.Agree && len(j.row.Proxies) > 1 && len(order) == len(j.row.Proxies) {
+		ok := true
 		why := ""
-		if !ok {
-			why = "not every proxy produced a ring view"
-		}
 		var ref string
 		dump := map[string][]string{}
 		for _, p := range order {
